@@ -10,7 +10,8 @@ statement (no check can reject *every* change of a 16-, 8- or 4-byte digest's in
 
 Statements expected false of the pinned tree (DESIGN §6 C07 ⟂) come as a counter-witness theorem
 (valid for every `H`) plus the `_partial` theorem under the explicit hypothesis:
-  * `aidx_footer_hash_bytes_compared`  ⟂  witness `aidx_unhashed_footer_accepted`
+  * `aidx_footer_hash_bytes_compared`  holds since fix 6b0ee35 (was ⟂: the former witness is now
+                                        `aidx_unhashed_footer_rejected`)
   * `load_verifies_guards`             ⟂  witnesses `update_load_ignores_guard`, `segment_load_ignores_checksums`
   * `v1_checksum_required`             ⟂  witness `v1_damaged_checksum_line_unchecked`
   * `validated_get_sound` (all sizes)  ⟂  witness `validated_get_large_unchecked`
@@ -90,12 +91,13 @@ theorem enc_page_corruption_needs_collision (H : Hash) (d d' : Bytes) (r r' : Na
 /-! ### Archive-index footer (`IndexFooter::is_valid`, `validate_format`, `validate_file_size`) -/
 
 /-- Exact acceptance condition of the footer stage of `ArchiveIndex::parse` (`cs = true`) and of
-`ChunkedArchiveIndex::open` (`cs = false`): the byte at `End(-13)` locates the footer, `H` is
-taken over footer bytes `[8,20)` padded with 8 zero bytes, and `min(hash size, footer[15])` bytes
-of its first 8 are compared with the file's tail. -/
+`ChunkedArchiveIndex::open` (`cs = false`): the byte at `End(-13)` must be 8 (fix 6b0ee35) and
+locates the footer, `H` is taken over footer bytes `[8,20)` padded with 8 zero bytes, and
+`min(hash size, footer[15])` bytes of its first 8 are compared with the file's tail. -/
 theorem aidx_accepts_iff (H : Hash) (cs : Bool) (d : Bytes) (v ob ekl cnt : Nat) :
     Aidx.footerCheck H cs d = .pass v ob ekl cnt ↔
-      (13 ≤ d.length ∧ 20 + Proofs.Integrity.Aidx.hbOf d ≤ d.length ∧ Proofs.Integrity.Aidx.comparedOf d ≤ 8 ∧
+      (13 ≤ d.length ∧ Proofs.Integrity.Aidx.hbOf d = 8 ∧
+       20 + Proofs.Integrity.Aidx.hbOf d ≤ d.length ∧ Proofs.Integrity.Aidx.comparedOf d ≤ 8 ∧
        (Proofs.Integrity.Aidx.storedOf d).take (Proofs.Integrity.Aidx.comparedOf d) =
           ((H (Aidx.hashedOf (Proofs.Integrity.Aidx.footerOf d))).take 8).take (Proofs.Integrity.Aidx.comparedOf d) ∧
        Aidx.formatOk (Proofs.Integrity.Aidx.footerOf d) = true ∧
@@ -105,6 +107,16 @@ theorem aidx_accepts_iff (H : Hash) (cs : Bool) (d : Bytes) (v ob ekl cnt : Nat)
        ekl = byteAt (Proofs.Integrity.Aidx.footerOf d) 14 ∧
        cnt = leNat (slice (Proofs.Integrity.Aidx.footerOf d) 16 4)) :=
   Proofs.Integrity.Aidx.footerCheck_pass_iff H cs d v ob ekl cnt
+
+/-- `aidx_footer_hash_bytes_compared` (FULL statement, holds since fix 6b0ee35): every accepted
+footer — both entry points, every input — has size byte 8 at `End(-13)` and all 8 stored hash
+bytes equal to `H(fields ‖ 0⁸)[..8]`. -/
+theorem aidx_footer_hash_bytes_compared (H : Hash) (cs : Bool) (d : Bytes) (v ob ekl cnt : Nat)
+    (hp : Aidx.footerCheck H cs d = .pass v ob ekl cnt) :
+    Proofs.Integrity.Aidx.hbOf d = 8 ∧
+    Proofs.Integrity.Aidx.storedOf d = (H (Aidx.hashedOf (Proofs.Integrity.Aidx.footerOf d))).take 8 ∧
+      (Proofs.Integrity.Aidx.storedOf d).length = 8 :=
+  Proofs.Integrity.Aidx.pass_full_compare' H cs d v ob ekl cnt hp
 
 /-- `aidx_footer_hash_bytes_compared_partial`: when the size byte at `End(-13)` is 8 (every footer
 the builders write) all 8 stored bytes are compared with `H(fields ‖ 0⁸)[..8]`. -/
@@ -125,13 +137,28 @@ theorem aidx_footer_corruption_needs_collision (H : Hash) (cs : Bool) (d d' : By
   obtain ⟨e2, _⟩ := aidx_footer_hash_bytes_compared_partial H cs d' v' ob' ekl' cnt' hp' h8'
   exact ⟨hne, by rw [← e1, ← e2, hst]⟩
 
-/-- ⟂ `aidx_footer_hash_bytes_compared` (counter-witness, every `H`): a 28-byte file whose byte at
-`End(-13)` is 0 is accepted by the complete `ArchiveIndex::parse` footer stage although NO hash
-byte was compared (`is_valid` compares `min(len, footer_hash_bytes)` bytes). -/
-theorem aidx_unhashed_footer_accepted (H : Hash) :
-    Aidx.footerCheck H true Proofs.Integrity.Aidx.witness = .pass 1 4 16 0 ∧
-      Proofs.Integrity.Aidx.comparedOf Proofs.Integrity.Aidx.witness = 0 :=
-  ⟨Proofs.Integrity.Aidx.witness_accepted H, by decide⟩
+/-- Corruption form without the size-byte hypotheses (full strength, since fix 6b0ee35). -/
+theorem aidx_footer_corruption_needs_collision_full (H : Hash) (cs : Bool) (d d' : Bytes) (v ob ekl cnt v' ob' ekl' cnt' : Nat)
+    (hp : Aidx.footerCheck H cs d = .pass v ob ekl cnt) (hp' : Aidx.footerCheck H cs d' = .pass v' ob' ekl' cnt')
+    (hst : Proofs.Integrity.Aidx.storedOf d' = Proofs.Integrity.Aidx.storedOf d)
+    (hne : Aidx.hashedOf (Proofs.Integrity.Aidx.footerOf d') ≠ Aidx.hashedOf (Proofs.Integrity.Aidx.footerOf d)) :
+    Collision H 8 (Aidx.hashedOf (Proofs.Integrity.Aidx.footerOf d')) (Aidx.hashedOf (Proofs.Integrity.Aidx.footerOf d)) :=
+  aidx_footer_corruption_needs_collision H cs d d' v ob ekl cnt v' ob' ekl' cnt' hp hp'
+    (aidx_footer_hash_bytes_compared H cs d v ob ekl cnt hp).1
+    (aidx_footer_hash_bytes_compared H cs d' v' ob' ekl' cnt' hp').1 hst hne
+
+/-- the former counter-witness of `aidx_footer_hash_bytes_compared` (28-byte file whose byte at
+`End(-13)` is 0, accepted before fix 6b0ee35 with NO hash byte compared) is now rejected with
+`InvalidFormat` by both entry points, for every `H`. -/
+theorem aidx_unhashed_footer_rejected (H : Hash) (cs : Bool) :
+    Aidx.footerCheck H cs Proofs.Integrity.Aidx.witness = .format :=
+  Proofs.Integrity.Aidx.witness_rejected H cs
+
+/-- the hypothesis of `aidx_footer_hash_bytes_compared` is satisfiable: with the constant-zero hash
+the 28-byte footer `0¹⁶ ‖ 01 00 00 04 04 04 10 08 0⁴ ‖ 0⁸`... is accepted by `open`. -/
+example : Aidx.footerCheck (fun _ => List.replicate 16 0) false
+    (List.replicate 8 0 ++ [1, 0, 0, 4, 4, 4, 16, 8, 0, 0, 0, 0] ++ List.replicate 8 0) = .pass 1 4 16 0 := by
+  decide
 
 /-! ### Update-section entries (`UpdateEntry::validate_hash_guard`) and the section loader -/
 
